@@ -35,6 +35,8 @@ def run_rules(mod, chk):
     else:
         from sa import generic
         generic.whole_collection_loops(chk)
+        generic.index_truthiness(chk)
+        generic.delay_names(chk)
     return chk
 
 
